@@ -5,10 +5,10 @@ from engine.checks import c_common, c15
 FUNCS = ['matrix_buffer_getbuf', 'matrix_buffer_relbuf',
          'matrix_add_generic', 'matrix_sub_generic', 'matrix_mul_generic',
          'matrix_div_generic', 'matrix_rem_generic', 'matrix_set_size',
-         'Matrix_NewFromSequence']
+         'Matrix_NewFromSequence', 'Matrix_NewFromPyBuffer']
 KINDS = ('export-buffer', 'export-layout', 'export-count',
          'export-typestate', 'constructor-postcondition',
-         'reject-exception', 'covered')
+         'reject-exception', 'covered', 'import-address')
 
 
 def run(report, tier, seed):
@@ -22,8 +22,10 @@ def run(report, tier, seed):
         'through which __reduce__ rebuilds a matrix returns the requested '
         'typecode and length for every sequence, also the empty one; the '
         'element values go through convert_num/write_num (assumed)',
-        'construction from foreign buffers (Matrix_NewFromPyBuffer) and the '
-        'sparse getstate/reduce paths']
+        'values converted while importing a buffer (int -> double/complex '
+        'conversions are value-level); numpy-style multi-dimensional or '
+        'suboffset exporters (rejected by the function); the sparse '
+        'getstate/reduce paths']
     report.assumptions += [
         'a buffer consumer holds the view between getbuf and relbuf '
         '(ob_exports > 0 exactly while a view is held)']
